@@ -44,7 +44,7 @@ def _p(rules, explanation, undecided, filters=None, floors=None, extra_assumptio
 
 
 PROPS = {
-    "C01": _p(["R-KC", "R-FP", "R-CP", "R-MC", "R-DC", "R-OA", "R-RK", "R-OS", "R-PO", "R-MX", "R-OP", "R-GS", "R-WI", "R-IS"],
+    "C01": _p(["R-KC", "R-FP", "R-CP", "R-MC", "R-DC", "R-OA", "R-RK", "R-OS", "R-PO", "R-MX", "R-OP", "R-GS", "R-WI", "R-IS", "R-SO"],
               "Decides the key-set mechanism behind cache transparency, not values: every child that any evaluate() path of any of the "
               "node classes consults is keyed on the same path of keys() (through constructed wrapper terms); the fingerprint reads "
               "nothing but sorted keyed pairs; Cached uses one (evaluatable, options, cache) triple for exists/get/set/keys and stores "
@@ -64,13 +64,13 @@ PROPS = {
               "the number of body executions for concrete DAGs, sharing inside one evaluation, behaviour of over-wide key sets",
               filters={"R-PO": ["WithOptions"], "R-EO": ["Computation", "CallbackEffect", "ChainedEffect"], "R-OA": ["WithOptions", "Cached", "Dataset"],
                        "R-MC": ["MemoryCache"], "R-CW": ["Dataset.overload"]}),
-    "C03": _p(["R-PO", "R-FP", "R-KC", "R-DK", "R-RK", "R-MF", "R-WI", "R-OP"],
+    "C03": _p(["R-PO", "R-FP", "R-KC", "R-DK", "R-RK", "R-MF", "R-WI", "R-OP", "R-SO", "R-OA"],
               "Decides: every component of every keys() result is a child's keys, an empty set, a literal key guarded by "
               "dotted_key_exists, or a filtered subset (WithOptions filter checked as a propositional formula on all 8 assignments); "
               "the fingerprint is a deterministic function of the sorted keyed pairs (no hash/id/set-order/environment dependence); "
               "nothing consulted is unkeyed; dotted keys are only looked up through dotted accessors.",
               "restrict-and-re-evaluate equality on concrete dictionaries; F13",
-              filters={"R-WI": [":keys:"], "R-OP": [":iterates"]}),
+              filters={"R-WI": [":keys:"], "R-OP": [":iterates"], "R-OA": [":keys:"]}),
     "C04": _p(["R-MS", "R-FV", "R-AB", "R-MP", "R-KN", "R-PU", "R-CC", "R-KC", "R-NK", "R-IS", "R-TK"],
               "Decides: the MISSING sentinel and looked-up values never flow into a truthiness test (presence is decided by "
               "KeyError/dotted_key_exists only); the default is consulted only on the key-absent branch behind `is not MISSING`; "
@@ -126,14 +126,14 @@ PROPS = {
               "InsufficientInformationError from it or falls back statically.",
               "the iterative fill-until-valid behaviour on concrete dictionaries",
               filters={"R-TK": ["explain"], "R-OP": [":iterates"], "R-WI": [":explain:"], "R-SO": ["Coalesce"], "R-SL": [":explain:"], "R-AB": ["explain"], "R-RK": ["explain"]}),
-    "C12": _p(["R-EH", "R-CH", "R-CD", "R-KN", "R-CP", "R-MC", "R-WR", "R-DC", "R-GS", "R-HI", "R-EX"],
+    "C12": _p(["R-EH", "R-CH", "R-CD", "R-KN", "R-CP", "R-MC", "R-WR", "R-DC", "R-GS", "R-HI", "R-EX", "R-AB"],
               "Decides: the default evaluate handler wraps every exception into EvaluationError(source = this object) chained with "
               "`from`, re-raising its own; all raises inside handlers are chained; only documented fall-through points catch "
               "EvaluationError and nothing else catches Exception; the only path into the memo dictionary is CacheSetRequest built in "
               "Cached.evaluate from a successful inner evaluation.",
               "the concrete cause chain for a given graph; outcomes of later evaluations",
               filters={"R-CP": ["store-after-compute"], "R-MC": ["writes", "constructs", "calls Cache.set"], "R-WR": ["__init_subclass__", "_evaluate_request", "directly"],
-                       "R-DC": ["cache layer", "cached"], "R-HI": ["disabled"]}),
+                       "R-DC": ["cache layer", "cached"], "R-HI": ["disabled"], "R-AB": ["Option.evaluate"]}),
     "C13": _p(["R-HO", "R-HF", "R-PI", "R-KC", "R-XA", "R-EO", "R-IS"],
               "Decides: the operand order of each helper step by symbolic beta-reduction of partial(f, …) against the documented "
               "behaviour; every option-valued helper parameter is handed to the step as an evaluated argument, not captured; "
@@ -149,7 +149,7 @@ PROPS = {
               "handlers are assigned once from a fresh dict and handle() derives a new Runtime, __exit__ restores on every path "
               "independent of the exception and returns nothing truthy, every table index is the current thread.",
               "the stack discipline over arbitrary enter/exit histories (needs a model)"),
-    "C15": _p(["R-LS", "R-CW", "R-TI", "R-RE", "R-MC"],
+    "C15": _p(["R-LS", "R-CW", "R-TI", "R-RE", "R-MC", "R-LB"],
               "Decides the lock and ownership discipline only: every access to the thread->runtime table under the module lock and "
               "keyed by the current thread; the overload table written under the object's lock and replaced copy-on-write; restore "
               "state of shared runtime objects is per thread; cache entries addressed by fingerprint in all three operations.",
@@ -168,13 +168,13 @@ PROPS = {
               "computed value; a failed get falls through to the computation; the set handler falls back to request.value.",
               "backends that violate the Cache contract in other ways (other exception types)",
               filters={"R-MC": ["MemoryCache.get:a miss"], "R-SO": ["Coalesce"]}),
-    "C18": _p(["R-WR", "R-RQ", "R-HD", "R-MP", "R-L1", "R-HI", "R-MF"],
+    "C18": _p(["R-WR", "R-RQ", "R-HD", "R-MP", "R-L1", "R-HI", "R-MF", "R-EO"],
               "Decides nearly the whole mechanism: the four ABC hooks replace every op by a request-issuing wrapper and the default "
               "handlers call the saved implementation; nothing else calls the saved implementations; every concrete class defines "
               "plain methods; cache/log/type-check sites go through XRequest(...).run(); backends are called only by handlers; every "
               "request type has a default handler.",
               "third-party subclasses; that a pass-through handler changes no value",
-              filters={"R-MP": ["type request"], "R-HI": ["handle", "disabled"], "R-MF": ["set to its evaluation"]}),
+              filters={"R-MP": ["type request"], "R-HI": ["handle", "disabled"], "R-MF": ["set to its evaluation"], "R-EO": ["__call__", "combinator API"]}),
     "C19": _p(["R-DK", "R-MF", "R-KC", "R-VA", "R-XA", "R-WI", "R-EO"],
               "Decides: relevant options are read with dotted accessors; validate/keys/explain/instantiation enumerate members with "
               "the same source and predicate; __eq__ and __repr__ read the recorded relevant options; members are children for key "
